@@ -681,3 +681,34 @@ example : orderOf (PatState.init.run (fun _ => true) m9hist) m9GET = [[97]] := b
   have e : orderOf (PatState.init.run (fun _ => true) [.watch [97], .update [97] (m9desc 1 m9GET)]) m9GET = [[97]] := by decide
   rw [e] at h
   exact h
+
+/-- **A target re-added after removal** (Close, Watch, UpdateDesc under the same name, after any history): Close unlinks it from
+    every list, the new description links NEW elements at the END of the lists of the HTTP methods it has accepted
+    bindings for — it does not get its old place back, nothing of the old description survives (`C06_snapshot_is_latest`). -/
+theorem C06_target_returns (valid : Bytes → Bool) (h : List Op) (m : HMethod) (d : Desc)
+    (hw : (latestOf h).watched d.name = true) (hb : (built valid d m).isSome = true) :
+    orderOf (PatState.init.run valid (h ++ [.close d.name])) m =
+      (orderOf (PatState.init.run valid h) m).filter (fun x => decide (x ≠ d.name)) ∧
+    orderOf (PatState.init.run valid (h ++ [.close d.name, .watch d.name, .update d.name d])) m =
+      (orderOf (PatState.init.run valid h) m).filter (fun x => decide (x ≠ d.name)) ++ [d.name] := by
+  have s1 := (C06_table_order valid h m).2.1 d.name hw
+  refine ⟨s1, ?_⟩
+  have s2 := (C06_table_order valid (h ++ [Op.close d.name]) m).2.2.1 d.name
+  have hw3 : (latestOf (h ++ [Op.close d.name] ++ [Op.watch d.name])).watched d.name = true := by
+    rw [latestOf_snoc, watched_watch]; simp
+  have s3 := (C06_table_order valid (h ++ [Op.close d.name] ++ [Op.watch d.name]) m).1 d hw3
+  have e : h ++ [Op.close d.name, Op.watch d.name, Op.update d.name d] =
+      h ++ [Op.close d.name] ++ [Op.watch d.name] ++ [Op.update d.name d] := by simp
+  rw [e, s3, s2, s1]
+  have hnot : d.name ∉ (orderOf (PatState.init.run valid h) m).filter (fun x => decide (x ≠ d.name)) := by
+    intro hm; simpa using (List.mem_filter.mp hm).2
+  simp [hnot, hb]
+
+/-- **The same binding repeated in one description** stays repeated in the built routes, in description order, each with its
+    own binding index (the lookup returns the first, `firstDecisive`); nothing is deduplicated on the way into the table. -/
+theorem C06_repeated_binding_kept (valid : Bytes → Bool) (si mi k : Nat) (b : Binding) (bs : List Binding)
+    (hv : valid b.pattern = true) :
+    bindingRoutes valid si mi (b :: b :: bs) k =
+      ⟨si, mi, some k, b.httpMethod, b.pattern⟩ :: ⟨si, mi, some (k + 1), b.httpMethod, b.pattern⟩ ::
+        bindingRoutes valid si mi bs (k + 2) := by
+  simp [bindingRoutes, hv]
